@@ -5,7 +5,10 @@ Part A — switch-side `IOWorker.send` / `RecocoIOWorker.send_fast` (as repaired
 `RecocoIOLoop.run` (pox/lib/ioworker/__init__.py:127-142, 244-248, 287-306, 424-462).
 Part B — controller-side `Connection.send` (pox/openflow/of_01.py:862-894) and `DeferredSender.send/_sliceup/run`
 (:426-512) as a two-actor transition system for ONE connection; the other connections are an environment that can
-only influence this one through the global `sending` flag and the lock (`envEnq`, `envDone`).
+only influence this one through the global `sending` flag and the lock (`envEnq`, `envDone`; `envDisc` = another
+connection is disconnected, which touches nothing this connection can see).
+Part C — several connections sharing the one deferred sender (`mrun`): every connection's view of a common history is
+a Part-B run whose environment actions are the other connections' effects on `_dataForConnection` / `sending`.
 The socket is an adversarial script of per-call outcomes.  Core only. -/
 namespace Pox.SendPath
 
@@ -145,8 +148,9 @@ structure Ctl where
   pending : List Bytes := []     -- _dataForConnection[con]  ([] = no entry)
   accepted : Bytes := []
   queued : Bytes := []           -- ghost: data of every Connection.send that got past the `disconnected` test
-  disc : Bool := false
-  offeredAfterDisc : Nat := 0    -- ghost: sock.send calls on this connection after it was marked disconnected
+  disc : Bool := false           -- Connection.disconnected (set by a fatal send error or from the cooperative side)
+  fatal : Bool := false          -- ghost: a `sock.send` on this connection has met a fatal socket error
+  offeredAfterDisc : Nat := 0    -- ghost: sock.send calls on this connection made after such a fatal error
   sending : Bool := false
   othersPending : Bool := false  -- some other connection has an entry in _dataForConnection
   lockHeld : Bool := false       -- DeferredSender._lock held by the sender thread
@@ -163,6 +167,13 @@ inductive Act
   | envEnq                    -- another connection defers data
   | envDone (reset : Bool)    -- another connection's entry is deleted (reset: it was emptied normally, so `sending` is
                               --   cleared if nothing else is pending; ¬reset: deleted on an error path)
+  | envDisc                   -- another connection is disconnected / closed (`Connection.disconnect` does not touch the
+                              --   deferred sender: nothing this connection can see changes)
+  | coopDisc                  -- THIS connection is disconnected from the cooperative side (`Connection.disconnect` /
+                              --   `close`: end of stream, echo timeout, application): `disconnected = True`, the socket is
+                              --   shut down; what is queued for it in the deferred sender stays there
+  | senderPurge               -- the sender thread's `select` refused a closed socket: under the lock it forgets what is
+                              --   queued for connections that are disconnected (repair C20-3), then selects again
   deriving Repr
 
 def enq (s : Ctl) (d : Bytes) : Ctl :=
@@ -179,14 +190,14 @@ def cstep (s : Ctl) : Act → Option Ctl
     | .checked d true => some { s with coop := .wantEnq d }
     | .checked d false =>
       let o := if s.disc then Outcome.fatal else o
-      let s := if s.disc then { s with offeredAfterDisc := s.offeredAfterDisc + 1 } else s
+      let s := if s.fatal then { s with offeredAfterDisc := s.offeredAfterDisc + 1 } else s
       match o with
       | .accept k =>
         let k := min k d.length
         if k = d.length then some { s with accepted := s.accepted ++ d, coop := .idle }
         else some { s with accepted := s.accepted ++ d.take k, coop := .wantEnq (d.drop k) }
       | .again => some { s with coop := .wantEnq d }
-      | .fatal => some { s with disc := true, coop := .idle }
+      | .fatal => some { s with disc := true, fatal := true, coop := .idle }
     | _ => none
   | .coopEnq =>
     match s.coop with
@@ -205,14 +216,14 @@ def cstep (s : Ctl) : Act → Option Ctl
     | d :: rest =>
       -- `disconnect()` has called sock.shutdown(SHUT_RDWR): every later send on that socket fails (assumed OS fact)
       let o := if s.disc then Outcome.fatal else o
-      let s := if s.disc then { s with offeredAfterDisc := s.offeredAfterDisc + 1 } else s
+      let s := if s.fatal then { s with offeredAfterDisc := s.offeredAfterDisc + 1 } else s
       match o with
       | .accept k =>
         let k := min k d.length
         if k = d.length then some { s with accepted := s.accepted ++ d, pending := rest }
         else some { s with accepted := s.accepted ++ d.take k, pending := d.drop k :: rest, sender := .finishing }
       | .again => some { s with sender := .finishing }
-      | .fatal => some { s with disc := true, pending := [], sender := .idle, lockHeld := false }
+      | .fatal => some { s with disc := true, fatal := true, pending := [], sender := .idle, lockHeld := false }
   | .senderFinish =>
     if s.sender ≠ .finishing then none else
     if s.pending = [] ∧ ¬ s.othersPending then some { s with sending := false, sender := .idle, lockHeld := false }
@@ -222,6 +233,10 @@ def cstep (s : Ctl) : Act → Option Ctl
     if s.lockHeld ∨ ¬ s.othersPending then none
     else if reset ∧ s.pending = [] then some { s with othersPending := false, sending := false }
     else some { s with othersPending := false }
+  | .envDisc => some s
+  | .coopDisc => if s.coop ≠ .idle then none else some { s with disc := true }
+  | .senderPurge =>
+    if s.sender = .idle ∧ ¬ s.lockHeld ∧ s.disc then some { s with pending := [] } else none
 
 /-- run an arbitrary interleaving; actions that are not enabled are skipped -/
 def crun (s : Ctl) : List Act → Ctl
@@ -234,5 +249,120 @@ def inflight (s : Ctl) : Bytes :=
   | .idle => []
   | .checked d _ => d
   | .wantEnq d => d
+
+/-! ## Part C: several connections, one deferred sender
+
+`DeferredSender` is one object for all connections: one `_dataForConnection`, one `sending` flag, one lock, one thread.
+A history of whole operations on `n` connections (a `Connection.send`, one iteration of the sender loop in which `select`
+reports some connections writable, a disconnect / close from the cooperative side) is replayed by giving every connection
+its own Part-B view: the connection's own actions, and environment actions for what the OTHER connections do to the shared
+state (`envEnq` when another connection's queue grows, `envDone` when the last other entry is deleted, `envDisc` when
+another connection is disconnected).  Every view only ever moves through `crun` (`MView.app`; theorem `mrun_views`), so
+every Part-B theorem holds for every connection of every such history. -/
+
+structure MView where
+  st : Ctl
+  trace : List Act := []        -- every action handed to this view, in order
+  closed : Bool := false        -- `Connection.close`: the socket's fileno() is invalid from now on, `select` refuses it
+  stamp : Nat := 0              -- when this connection's entry in `_dataForConnection` was created (dicts keep insertion order)
+
+def MView.app (v : MView) (acts : List Act) : MView := { v with st := crun v.st acts, trace := v.trace ++ acts }
+
+inductive MOp
+  | send (c : Nat) (d : Bytes) (o : Outcome)       -- Connection.send(d) on connection c; `o` = outcome of a direct write
+  | flush (ws : List (Nat × List Outcome))         -- one sender iteration: select reports these connections writable; per
+                                                   --   connection the outcomes of its first writes (afterwards: accepts all)
+  | disc (c : Nat) (close : Bool)                  -- Connection.disconnect() (close = false) / Connection.close() on c
+  deriving Repr
+
+/-- hand `f i v` to the view with index `i`, for every view -/
+def appAll (f : Nat → MView → List Act) : Nat → List MView → List MView
+  | _, [] => []
+  | i, v :: vs => v.app (f i v) :: appAll f (i + 1) vs
+
+def setClosed (c : Nat) : Nat → List MView → List MView
+  | _, [] => []
+  | i, v :: vs => (if i = c then { v with closed := true } else v) :: setClosed c (i + 1) vs
+
+def setStamp (c t : Nat) : Nat → List MView → List MView
+  | _, [] => []
+  | i, v :: vs => (if i = c then { v with stamp := t } else v) :: setStamp c t (i + 1) vs
+
+/-- a stamp later than every stamp given so far -/
+def nextStamp (vs : List MView) : Nat := vs.foldl (fun m v => max m v.stamp) 0 + 1
+
+/-- connection `w` has an entry in `_dataForConnection` -/
+def hasEntry (vs : List MView) (w : Nat) : Bool :=
+  match vs[w]? with
+  | some v => !v.st.pending.isEmpty
+  | none => false
+
+/-- some connection other than `v` and `c` has an entry -/
+def othersBusy (vs : List MView) (v c : Nat) : Bool :=
+  (List.range vs.length).any fun w => w != v && w != c && hasEntry vs w
+
+/-- what the other connections see of connection `c` having moved from state `b` to state `a` -/
+def project (vs : List MView) (c : Nat) (b a : Ctl) : List MView :=
+  let grew : Bool := decide (a.pending.flatten.length > b.pending.flatten.length)   -- DeferredSender.send queued something
+  let deleted : Bool := !b.pending.isEmpty && a.pending.isEmpty                    -- c's entry was deleted
+  appAll (fun v _ =>
+    if v = c then [] else
+      (if grew then [Act.envEnq] else []) ++
+      (if deleted && !othersBusy vs v c then [Act.envDone (!a.disc)] else [])) 0 vs
+
+/-- connection `c` takes `acts`; the others see the effect on the shared state -/
+def actOn (vs : List MView) (c : Nat) (acts : List Act) : List MView :=
+  match vs[c]? with
+  | none => vs
+  | some b =>
+    let vs' := appAll (fun i _ => if i = c then acts else []) 0 vs
+    match vs'[c]? with
+    | none => vs'
+    | some a =>
+      -- a new entry goes to the end of the dict
+      let vs' := if b.st.pending.isEmpty && !a.st.pending.isEmpty then setStamp c (nextStamp vs') 0 vs' else vs'
+      project vs' c b.st a.st
+
+/-- the sender thread's pass over one writable connection: `outs` are the outcomes of its first `sock.send` calls, after
+    them the socket takes whatever it is offered (the loop ends when the queue is empty or a write was short) -/
+def flushActs (s : Ctl) (outs : List Outcome) : List Act :=
+  [Act.senderBegin] ++ outs.map Act.senderSend ++
+    List.replicate (s.pending.length + 1) (Act.senderSend (.accept s.pending.flatten.length)) ++ [Act.senderFinish]
+
+def flushOne (vs : List MView) (w : Nat × List Outcome) : List MView :=
+  match vs[w.1]? with
+  | none => vs
+  | some v => if v.st.pending.isEmpty then vs else actOn vs w.1 (flushActs v.st w.2)
+
+/-- `select` reports the writable connections in the order of the list it was given, the keys of `_dataForConnection`,
+    i.e. in the order in which the entries were created -/
+def stampOf (vs : List MView) (c : Nat) : Nat := match vs[c]? with | some v => v.stamp | none => 0
+
+def insertW (vs : List MView) (w : Nat × List Outcome) : List (Nat × List Outcome) → List (Nat × List Outcome)
+  | [] => [w]
+  | x :: xs => if stampOf vs w.1 ≤ stampOf vs x.1 then w :: x :: xs else x :: insertW vs w xs
+
+def sortW (vs : List MView) (ws : List (Nat × List Outcome)) : List (Nat × List Outcome) := ws.foldr (insertW vs) []
+
+def purgeOne (vs : List MView) (c : Nat) : List MView :=
+  match vs[c]? with
+  | none => vs
+  | some v => if v.st.disc && !v.st.pending.isEmpty then actOn vs c [Act.senderPurge] else vs
+
+def mstep (vs : List MView) : MOp → List MView
+  | .send c d o => actOn vs c [.coopCheck d, .coopGo o, .coopEnq]
+  | .disc c close =>
+    let vs := appAll (fun i _ => if i = c then [Act.coopDisc] else [Act.envDisc]) 0 vs
+    if close then setClosed c 0 vs else vs
+  | .flush ws =>
+    -- `select` raises on a closed socket that still has an entry; the sender then forgets the entries of all
+    -- disconnected connections and selects again (repair C20-3)
+    let vs := if vs.any (fun v => v.closed && !v.st.pending.isEmpty)
+              then (List.range vs.length).foldl purgeOne vs else vs
+    (sortW vs ws).foldl flushOne vs
+
+def minit (pb n : Nat) : List MView := List.replicate n { st := { pb := pb } }
+
+def mrun (pb n : Nat) (ops : List MOp) : List MView := ops.foldl mstep (minit pb n)
 
 end Pox.SendPath
